@@ -187,6 +187,28 @@ Theorem C16_tour_admits_complete : forall gsize inds tr,
 Proof. exact (tour_admits_complete better). Qed.
 Print Assumptions C16_tour_admits_complete.
 
+(* outputs accepted by the SPEA-2 relation are drawn from the individuals, repeat-free, of the
+   requested size, and contain every non-dominated individual whenever those all fit *)
+Theorem C16_spea2_admits_contract : forall inds pop_size out,
+  NoDup (map uid inds) -> spea2_admits dom inds pop_size out = true ->
+  (subset_b out inds = true /\ NoDup (map uid out) /\ length out = pop_size) /\
+  (length (filter (nondominated dom inds) inds) <= pop_size ->
+   forall x, In x inds -> nondominated dom inds x = true -> mem_uid x out = true).
+Proof.
+  intros inds pop_size out ND H. split; [apply (spea2_admits_contract dom); assumption|].
+  intros Hn x Hx Hnd. apply (spea2_admits_keeps_front dom inds pop_size out x dom_asym); assumption.
+Qed.
+Print Assumptions C16_spea2_admits_contract.
+
+(* whatever the decidable relation `sel_admits` accepts satisfies the executable clauses of the
+   property (on populations in which equal uids mean equal individuals): a model / implementation
+   agreement implies the property's selection clauses for that output *)
+Theorem C16_sel_admits_holds : forall t population pop_size out,
+  consistent population -> sel_admits t population pop_size out = true ->
+  sel_holds_b t population pop_size out = true.
+Proof. exact sel_admits_holds. Qed.
+Print Assumptions C16_sel_admits_holds.
+
 (* the executable clauses (`*_holds_b`, evaluated by the driver on the implementation's observed
    outputs) hold of the model's outputs for every oracle, i.e. they ask for nothing beyond
    the theorems above *)
